@@ -91,6 +91,7 @@ def _run_group(prop, gname, tier, seed):
             out['explore_s'] = t1 - t0
             out['paths'] = E.paths
             out['left_fragment'] = E.left_fragment
+            out['abandoned'] = list(getattr(E, 'abandoned', []))
             out['unexpected'] = E.unexpected
             out['files'] = L.files
             out['cy2py_dropped'] = {k: [list(x) for x in v] for k, v in L.cy2py_dropped.items()}
@@ -369,6 +370,7 @@ def verdict(prop, mod, tier, seed, groups, results, t0, a):
     baseline = load_baseline(prop)
     lines = []
     broken, undecided, violations, known_hits = [], [], [], []
+    abandoned_notes = []
     n_ob = n_dis = 0
     by_backend = {}
     samples = []
@@ -393,6 +395,8 @@ def verdict(prop, mod, tier, seed, groups, results, t0, a):
         if r['error']:
             broken.append('%s: %s' % (r['group'], r['error']))
             continue
+        for (p, msg) in r.get('abandoned') or []:
+            abandoned_notes.append('%s path %d: %s' % (r['group'], p, msg.replace('\n', ' | ')[:300]))
         for (p, msg) in r.get('left_fragment') or []:
             undecided.append('%s path %d left the modelled fragment: %s' % (r['group'], p, msg))
         if r.get('kind') in ('proof', 'static'):
@@ -519,6 +523,8 @@ def verdict(prop, mod, tier, seed, groups, results, t0, a):
         exit_code = 1
     if canaries == 0 and any(r.get('kind') == 'proof' for r in results) and not broken and a.group is None:
         broken.append('no canary obligation was refuted (vacuity guard)')
+    for n_ in abandoned_notes[:8]:
+        print('NOTE property=%s abandoned path (path condition unsatisfiable): %s' % (prop, n_))
     if broken:
         for b in broken:
             print('CHECKER-BROKEN property=%s %s' % (prop, b[:1500]))
